@@ -619,6 +619,22 @@ def replay_case(sc: Scratch, replay: dict) -> Case:
     return Case.from_json(d, remap)
 
 
+def same_items(model_items, real_items) -> bool:
+    """Model output == process output.  Decisions are compared as (format, verdict, key set) and by their
+    reason - except where the reason is wording owned by main() itself ("config error: ...", the
+    "[pattern]" fallback of an MCP rule without message), which a reworded message must not trip."""
+    a, b = canon_items(model_items), canon_items(real_items)
+    if len(a) != len(b):
+        return False
+    for x, y in zip(a, b):
+        if x[0] == "D" and y[0] == "D" and x[3] == "<wording>":
+            if (x[1], x[2], x[4]) != (y[1], y[2], y[4]):
+                return False
+        elif x != y:
+            return False
+    return True
+
+
 def describe(c: Case, sc: Scratch | None = None):
     loc = {"proj_dir": sc.proj(c.proj_cfg), "home": sc.home(c.user_cfg)} if sc else {}
     return {"case": c.to_json(), **loc, "stdin": c.data[:2000].decode("utf-8", "backslashreplace"), "stdin_len": len(c.data),
